@@ -15,6 +15,10 @@ CHECKS = {
    technique="exhaustive enumeration of call histories on one real Translator over an input alphabet (depth-bounded), plus N-document streams and document boundaries at every offset around buffer sizes under deviation-bounded read schedules; sequential-composition reference + independent framing readers",
    text="Every history of translate calls (mixed formats, slice/reader, named/detected, including failing inputs) up to the depth bound on one Translator, for each streaming target, outputs exactly the concatenation of each document's stand-alone translation, and the target's independent reader recovers exactly N documents; the same for N-document streams (N to 1000) and for streams whose document boundary sits at every offset around 8 KiB multiples, from slice and from readers within the schedule bound; the CLI part runs mixed-format file lists through the real binary.",
    note="Reference = xt's own single-document translation (sequential composition), so absolute value fidelity is left to C01. Trusted: harness readers for framing."),
+ "C04": dict(cat="exploration", design="4.4",
+   technique="bounded-exhaustive input enumeration x deviation-bounded read schedules on the real library inside crash-isolated worker processes (progress file, watchdog, RLIMIT_AS, default main-thread stack), plus the adversarial families through the real binaries",
+   text="Every enumerated input (token sequences, seed prefixes and edits, all byte strings <= 2, nesting to 10^5-10^6 of every bracket kind, every MessagePack declared-length header, alias bombs and anchor abuses, a refused value at every node) for named and detected sources, all targets, slice and reader schedules returns Ok or Err: no caught panic, no worker death (abort, stack overflow, allocation failure), no 90 s stall; the debug and release binaries only ever exit 0 or 1 on the adversarial families.",
+   note="Termination is judged by a no-progress watchdog. The harness build of xt keeps debug assertions and overflow checks on and unwinds, so debug-only panics are seen; the shipped panic=abort behaviour is exercised through the binaries."),
  "C05": dict(cat="model_checking", design="4.5",
    technique="enumeration of packetisations and deviation-bounded read schedules with a monitor evaluated at every read() of the real library (lag), plus long generated streams under a counting allocator whose abstract heap states must recur (memory)",
    text="For every enumerated stream shape, source (named and detected), target and packetisation (and every schedule within the deviation bound for small streams) the lag monitor holds at every read(): documents 1..j-2 are fully written once j documents were delivered. For generated streams of tens of thousands of documents the live heap does not grow between the second and third quarter, stays under 2 MiB + 24 largest documents, and its abstract states recur.",
